@@ -338,6 +338,26 @@ theorem model_shape_facts :
     Gen.C05.tailWithIntercept = ["self.coef_ = beta[:-1]", "self.intercept_ = beta[-1]"] ∧
     Gen.C05.tailWithoutIntercept = ["self.coef_ = beta", "self.intercept_ = 0"] := by decide
 
+/-- the training set reaches the IRLS as given: `fit` rebinds none of `X`, `y`, `sample_weight` except for taking the
+array out of a DataFrame (`X = X.values`), and it does so BEFORE building the design matrix - so `Xm`, `y` and the
+weights the model's `fitObjective` speaks about are the caller's values, row i with row i -/
+theorem training_set_reaches_the_solver_unchanged :
+    Gen.C05.fitInputRebinds = ["X = X.values"] ∧ Gen.C05.conversionBeforeDesign = true := by decide
+
+/-! ### the tie to the functions the model transcribes -/
+
+/-- the functions the hand-written model transcribes have, in the current source, the control skeleton (tests, loop
+headers, kinds of statements and the names they bind) they had when the model was written and validated: no branch,
+loop, early exit or rebinding has been added that the model does not describe -/
+theorem modelled_functions_have_the_transcribed_shape :
+    MlVerif.Gen.C05.shapeFit =
+      "if(len(y.shape) > 1 and y.shape[1] != 1){raise};def compute_z{deltas=;(epsilon,mult)=;r=;if(mult is not None){epsilonMult=;rMult=};return};if(not isinstance(X, numpy.ndarray)){if(hasattr(X, 'values')){X=}else{raise}};if(self.fit_intercept){Xm=}else{Xm=};clr=;W=;self.n_iter_=;lastE=;for(i in range(0, self.max_iter)){call fit;beta=;(W,epsilon)=;if(sample_weight is not None){WMult=;epsilonMult=};E=;self.n_iter_=;if(self.verbose){call print};if(lastE is not None and lastE == E){break};lastE=};if(self.fit_intercept){self.coef_=;self.intercept_=}else{self.coef_=;self.intercept_=};return" ∧
+    MlVerif.Gen.C05.shapeEpsilon =
+      "diff=;epsilon=;if(quantile != 0.5){sign=;mult=;mult[]Mult=;mult[]Mult=}else{mult=};if(sample_weight is not None){epsilonMult=};return" ∧
+    MlVerif.Gen.C05.shapeScore =
+      "pred=;if(self.quantile != 0.5){(epsilon,mult)=;if(mult is not None){epsilonMult=};if(sample_weight is not None){return};return};return" :=
+  ⟨rfl, rfl, rfl⟩
+
 /-! ### non-vacuity: concrete instances over `Rat` -/
 
 -- q = 1/4, targets 0,0,0,4 predicted by the constant 1: E = Σ|r|(1-mult) = 3·(3/4) + 3·(1/4) = 3
